@@ -109,6 +109,31 @@ CLAIMED["C20"] = (
     "DESIGN.md section 4 C20",
 )
 
+CLAIMED["C01"] = (
+    "constant agreement by evaluating the declarations with big integers (no repository code run), GUARD on special-case branches, SIBLING agreement between the 23 instances of the field template",
+    "Decides for the 23 field packages the structural part of 'field arithmetic is exact': the baked constants agree with each other (modulus limbs = hex modulus of init, q odd, qInvNeg*q = -1 mod 2^w, rSquare = 2^(2wN) mod q, SetOne stores 2^(wN) mod q, Bits/Bytes, qElement, the (q-1)/2+1 threshold of LexicographicallyLargest, smallerThanModulus compares limb i with q_i); Neg has its zero branch, Exp inverts the base exactly under the negative-exponent test, Sqrt has a nil return; every function of a field package has the same multiset of calls/branches/stores/returns as the same function in the sibling packages of equal limb count, except template variants listed with a reason (a one-package edit of any arithmetic routine is reported).",
+    "The carry chains, Montgomery reduction, the inversion algorithm and the assembly kernels are NOT decided to compute the field operations: a change made consistently in the template (all siblings) that keeps calls and constants is out of reach. Sibling agreement is a necessary condition only in the sense that the instances are generated from one template.",
+    "DESIGN.md section 4 C01",
+)
+CLAIMED["C02"] = (
+    "GUARD (accept-dominance) on membership / equality predicates, dispatch facts at the doubling hand-over, definite-assignment + exposed-read analysis of every fluent point operation, SIBLING agreement between the 17 groups and 8 twisted-Edwards instances",
+    "Decides for all groups: IsInSubGroup accepts only after the on-curve test and, for groups with a cofactor, the order-killing test; Jacobian Equal accepts only both-infinite or neither-infinite-and-scaled-equal; every addition routine reaches the generic formula only after both infinity tests and hands over to doubling exactly under equality tests on computed (scaled) coordinates; every operation returning its receiver defines all coordinates on every return and, unless documented in-place, never reads the receiver's old coordinates (found and fixed: stark-curve doubleMixed used the destination's old ZZ); instances agree with their siblings.",
+    "That the straight-line formulas compute the chord-and-tangent / Edwards law is value-level and not decided.",
+    "DESIGN.md section 4 C02",
+)
+CLAIMED["C03"] = (
+    "L-ABS sign discipline over math/big magnitude accessors (with call-graph hoisting for unexported helpers), L-SCAN backward slice of scan-loop start indices, definite assignment, accumulator initialisation, SIBLING agreement",
+    "Decides for every scalar-multiplication routine of the curve, twisted-Edwards and ecc packages: a routine that scans |s| consults the sign of s or scans a value derived from one whose sign was consulted (found and fixed: stark-curve mulWindowed ignored the sign); a descending scan loop over several sub-scalars starts from an index computed from every one of them; the accumulator starts at the neutral element; entry points fully define their receiver; the 17 instances agree.",
+    "[s]P = repeated addition, the lattice decomposition and digit recoding are value-level: not decided.",
+    "DESIGN.md section 4 C03",
+)
+CLAIMED["C06"] = (
+    "L-ABS / L-SCAN on exponentiations, belief-contradiction lint (operand known to vanish), guarded-divisor rule on Karabina decompression, definite assignment + exposed reads of every tower operation, SIBLING agreement between tower instances",
+    "Decides for the fptower and small-field extension packages: exponentiations handle the exponent's sign and scan all sub-exponents; no product uses an operand known to be zero on that branch and the coordinate selecting Karabina's fallback formula feeds the divisor of the other branch (found and fixed: E12.DecompressKarabina tested g5 instead of g3, failing inputs in /verif/findings/karabina); every operation returning its receiver defines it completely (documented partial operations listed) and, unless in-place, does not read its old value; instances of one template agree.",
+    "That the products, squarings, Frobenius tables and assembly kernels compute the ring operations of the documented quotient rings is value-level and not decided.",
+    "DESIGN.md section 4 C06",
+)
+
 NOT_YET = "check not built yet in this revision of /verif (see DESIGN.md section 4 for the planned structural clauses); the value-level core is not decidable by static analysis"
 
 def main():
